@@ -35,7 +35,7 @@ EXTRACTORS = ["Factory"]
 
 _MISSING = "<not-passed>"          # default of the optional keywords (hashable, part of einx's cache key)
 OPTIONAL = ("name", "arg_index", "signature")
-STYLES = ["pos", "name", "idx_sig", "kwonly", "varkw", "mixed", "posonly_name", "varpos", "unrelated", "object", "partial", "all3"]
+STYLES = ["pos", "name", "idx_sig", "kwonly", "varkw", "mixed", "posonly_name", "varpos", "unrelated", "object", "partial", "all3", "req_name"]
 BAD = ["list", "float", "none", "duck", "wrongshape", "raises"]
 
 
@@ -114,6 +114,11 @@ def make_factory(style, rec):
         return lambda shape: rec(shape, {}, ())
     if style == "name":
         def f(shape, name=M):
+            return rec(shape, kw(name=name), ())
+        return f
+    if style == "req_name":
+        # `name` is declared without a default: the call only works if einx passes the keyword it declares
+        def f(shape, name):
             return rec(shape, kw(name=name), ())
         return f
     if style == "idx_sig":
@@ -639,6 +644,17 @@ def run_case(ctx, case, rng, tie=True, n_bad=2):
     ctx.count("exec:warm-other-factory" if not warm2.traced else "exec:other-factory-retraced")
     clean &= check_exec(ctx, warm2, "cached repeat (different factory objects, same signature)", other=cold)
     clean &= check_result(ctx, warm2, "cached repeat (different factory objects, same signature)")
+    # factories whose signatures differ from the cached ones only in the KIND of a parameter (`name=None` vs `name=None, /`):
+    # they declare different optional keywords, so they must not be served by the function compiled for the others
+    SIB = {"name": "posonly_name", "posonly_name": "name", "mixed": "posonly_name"}
+    if any(st in SIB for st in case["styles"].values()):
+        for order in (0, 1):
+            sib = {**case, "styles": {i: (SIB.get(st, st) if order == 0 else st) for i, st in case["styles"].items()}}
+            ex = Exec(sib, 7 + order).run()
+            lab = "sibling signature (same parameter names, different kind) after the original" if order == 0 else "original signature again after its sibling"
+            ctx.count("exec:sibling-signature")
+            clean &= check_exec(ctx, ex, lab)
+            clean &= check_result(ctx, ex, lab)
     # the very same callable at every factory position (it tells the positions apart by `arg_index`)
     if len(case["pos"]) >= 2:
         sh = Exec(case, 6, shared=True).run()
@@ -775,6 +791,16 @@ def run(ctx):
     pool = []
     done = 0
     attempts = 0
+    # directed cases: several factories in one call whose signatures declare different optional keywords, in both orders
+    # (a keyword filtered out for one factory must not be missing for the next; `req_name` fails if its keyword is not passed)
+    dcall = {"op": "add", "family": "elementwise", "desc": "a b, b, a -> a b", "shapes": [(2, 3), (3,), (2,)], "kwargs": {}, "note": ["directed"]}
+    for styles in ({1: "pos", 2: "req_name"}, {1: "req_name", 2: "pos"}, {1: "idx_sig", 2: "req_name"}, {0: "pos", 1: "kwonly", 2: "all3"}, {1: "unrelated", 2: "all3"}):
+        dargs = gen.make_args(dcall, rng)
+        case = build_case(ctx, dcall, dargs, tuple(sorted(styles)), dict(styles), st)
+        if case is not None:
+            run_case(ctx, case, rng, n_bad=1)
+            ctx.case(sig_of(case, "case"), True)
+            ctx.count("directed-multi-factory")
     while done < n_calls and attempts < n_calls * 4:
         attempts += 1
         # half of the calls from the families with several tensor arguments (a factory next to real tensors is the common use)
